@@ -41,13 +41,29 @@ def _tol(*dtypes) -> float:
     return 16 * eps
 
 
-def set_dtype_admissible(values_f, values_e, src, dst) -> bool:
+def missed_values(h):
+    """What the histogram recorded outside its bins, where it is a number (it changes type along with the bins)."""
+    vals = [h.underflow, h.overflow, h.inner_missed] if hasattr(h, "underflow") else [h.missed]
+    if not h.keep_missed and hasattr(h, "underflow"):
+        vals = [h.missed]
+    out = []
+    for v in vals:
+        try:
+            v = float(v)
+        except Exception:
+            continue
+        if not math.isnan(v):
+            out.append(v)
+    return out
+
+
+def set_dtype_admissible(values_f, values_e, src, dst, missed=()) -> bool:
     """Reference rule of the statement: integer target -> everything integral and in range; any narrower target -> in range."""
     src, dst = np.dtype(src), np.dtype(dst)
     if src == dst or np.can_cast(src, dst):
         return True
     info = np.iinfo(dst) if dst.kind in "iu" else np.finfo(dst)
-    for a in (values_f, values_e):
+    for a in (values_f, values_e, list(missed)):
         a = np.asarray(a, dtype=np.longdouble)
         if dst.kind in "iu" and src.kind == "f" and np.any(a % 1):
             return False
@@ -328,7 +344,7 @@ def one_history(ctx, index, rng: random.Random):
                             hn.errors2 = np.abs(np.asarray(hn.frequencies))  # keep the squared errors small: only the sign decides
                     target = rng.choice(["uint8", "uint16", "uint32", "uint64", "int16", "int32", "int64"])
                     src_dt = np.dtype(hn.dtype)
-                    ok = set_dtype_admissible(hn.frequencies, hn.errors2, src_dt, target)
+                    ok = set_dtype_admissible(hn.frequencies, hn.errors2, src_dt, target, missed_values(hn))
                     with attach.quiet():
                         s_before = snap.snapshot(hn)
                     raised = None
@@ -385,9 +401,15 @@ def one_history(ctx, index, rng: random.Random):
                             h.errors2 = np.ones(h.shape, dtype=h.dtype)
                         f0, e0 = shadow_of(h)
                         before_dtype = np.dtype(h.dtype)
+                    if d == 1 and h.keep_missed and rng.random() < 0.25 and float(h.underflow) == float(h.underflow):
+                        # the bins fit the target, what was recorded below them need not (or is not a whole number)
+                        try:
+                            h.underflow = rng.choice([40000, 3_000_000_000, 7]) if np.dtype(h.dtype).kind in "iu" else rng.choice([0.5, 40000.0, 2.0])
+                        except Exception:
+                            pass
                     with attach.quiet():
                         s_before = snap.snapshot(h)
-                    ok = set_dtype_admissible(h.frequencies, h.errors2, before_dtype, target)
+                    ok = set_dtype_admissible(h.frequencies, h.errors2, before_dtype, target, missed_values(h))
                     raised = None
                     try:
                         if rng.random() < 0.5:
